@@ -7,6 +7,41 @@ ROOT = os.path.dirname(HERE)
 
 # property -> (level category, technique, level text, level note, design ref)
 CHECKS = {
+    "C01": ("exploration",
+            "reference-model monitor on recorded sign/verify executions: nonce recovery k'=s(1+d)+rd, recomputation of r from GM/T 0003.2, nonce/reader-consumption monitor, differential rejection against a reference verifier and strict DER reader",
+            "Signs (key class x message length x ID class x nonce stream) through Sm2Sign and PrivateKey.Sign with a recording reader; for each signature the monitor recovers the nonce the signature implies and checks (r,s) is the pair the standard prescribes, that equal reader bytes give equal signatures, that different streams never share r or nonce, that all three verifiers accept; then every single-field perturbation of valid tuples (message, ID, key, r, s, DER manglings) is given to gmsm and to the reference: gmsm must reject whatever the standard rejects.",
+            "Trusted: /verif/ref SM2 (GM/T 0003.5 signature example) and the harness's strict DER reader. Retry branches (r=0, r+k=n, s=0) unreachable by sampling.",
+            "DESIGN.md §5 C01"),
+    "C02": ("exploration",
+            "reference decryption of every produced ciphertext + round-trip monitors over all API forms + rejection fault catalogue (byte changes, truncations, other key, ordering, invalid-curve C1) + reader-budget bounded-progress monitor",
+            "Encrypts every plaintext length of the tier grid (thorough: 0..4096) in both orderings, raw/ASN.1/crypto.Decrypter, with recording readers; each ciphertext must open under the reference GM/T 0003.4 decryption and under gmsm; reference-made ciphertexts (incl. nonces giving short coordinates) must open under gmsm; every single-byte change / truncation / wrong key / wrong ordering / off-curve C1 consistent with [d]C1 must be rejected; Encrypt must return within 64 nonces.",
+            "Trusted: /verif/ref SM2 encryption (GM/T 0003.5 example). The all-zero-KDF retry is unreachable for non-empty plaintexts.",
+            "DESIGN.md §5 C02"),
+    "C03": ("exploration",
+            "differential monitor against affine math/big group law and big-integer field arithmetic (white-box hooks), scripted-reader monitor for GenerateKey",
+            "Runs Add/Double/ScalarMult/ScalarBaseMult/IsOnCurve/Params over boundary-class scalars (0..40 bytes incl. n-16..n+16 with leading zeros, multiples of n, all-ones windows) and points (incl. short coordinates, infinity, P=Q, P=-Q); field Mul/Square/Add/Sub/FromBig/ToBig over limb patterns {0,1,max-1,max}^9 (exhaustive in thorough) and op chains; GenerateKey with all-zero/all-ff/short/failing readers.",
+            "Trusted: /verif/ref affine arithmetic ([n]G=O, GM/T 0003.5 examples). Scalars/points sampled by class.",
+            "DESIGN.md §5 C03"),
+    "C09": ("exploration",
+            "ground-truth round-trip monitor (template vs parsed fields), issuer/other-key verification monitor, reference SM2 verification of signed bytes, per-byte tamper sweep",
+            "Creates certificates, CSRs and CRLs (both constructors) over generated templates x signer family {SM2, RSA, P-256, P-384} x algorithm {unset, each of the family}; parses back and compares field by field with the template; verifies under issuer, under a fresh key, with the reference SM2 verifier over the raw TBS; substitutes bytes at every position (quick: every position for a tenth of the objects, sampled for the rest) and requires parse or verification failure unless signed bytes and signature integers are unchanged.",
+            "Trusted: templates as ground truth, /verif/ref SM2 verify, encoding/asn1, crypto/x509 for RSA/ECDSA issuers.",
+            "DESIGN.md §5 C09"),
+    "C13": ("exploration",
+            "differential monitor against a reference GM/T 0003.3 key exchange for both roles + agreement monitor + hostile-ephemeral catalogue",
+            "Runs KeyExchangeA/B over the standard's example, key/ephemeral classes with leading-zero coordinates (incl. searched short shared-point coordinates), identity lengths 0..8191 and key lengths 1..1024; K, S1, S2 of both parties must agree with each other and with the reference; off-curve or infinite peer ephemerals must yield an error.",
+            "Trusted: /verif/ref key exchange (GM/T 0003.5 example K, S1, S2).",
+            "DESIGN.md §5 C13"),
+    "C14": ("exploration",
+            "round-trip monitors over every offered serialization with forced leading-zero classes, independent PBES2 decryption, wrong-password catalogue, accept-iff-match monitor for the TLS loaders",
+            "Serialises keys (classes with 1..3 leading zero bytes in d, x, y, odd hex digits), signatures and ciphertexts through every offered form and back; decrypts gmsm's encrypted PKCS#8 independently (PBKDF2-HMAC-SHA1/AES-256-CBC); tries wrong passwords (one bit, case, length, empty, nil); feeds matching, mismatching and swapped PEM pairs (SM2, RSA, P-256; memory and files) to all six loaders.",
+            "Trusted: /verif/ref public-key derivation, x/crypto/pbkdf2 + crypto/aes, crypto/x509. Passwords equal up to trailing zero bytes are the same PBKDF2-HMAC password and are skipped.",
+            "DESIGN.md §5 C14"),
+    "C19": ("exploration",
+            "model-based stream monitor (reference pad/unpad, reference CBC) over scripted sources and write plans with a Read-call budget",
+            "Drives PKCS7PaddingReader with scripted sources (one-byte, short non-EOF, zero-byte reads, data+EOF, mid-stream error) x caller buffer sizes x lengths 0..5000 x block sizes 8/16; PKCS7PaddingWriter with write plans 1..8192 and every invalid final-block pattern / unaligned stream; P7BlockEnc/P7BlockDecrypt over CBC(ref SM4), CBC(gmsm SM4), CBC(DES).",
+            "Trusted: ref PKCS#7 pad, crypto/cipher CBC, ref SM4.",
+            "DESIGN.md §5 C19"),
     "C04": ("exploration",
             "model-based trace monitor + differential reference model (SM3 transcribed from GM/T 0004) over generated inputs and op sequences",
             "Runs the real sm3 package over every message length of the tier's grid, random partitions into 1..8 writes (incl. empty and buffer-recycling writes), exhaustively enumerated op sequences over {Write,Sum(nil),Sum(prefix),Sum(prefix+cap),Reset} to depth 4 (quick) / 5 (thorough) plus random traces to length 8, HMAC/PBKDF2 instantiations and multi-MiB streams; a monitor compares every observable result with a model that remembers the bytes written since Reset and an independent SM3. Held = no divergence on the executions produced.",
